@@ -38,6 +38,7 @@ func propC06(w *World, r *Report) {
 	RunReuseKey(w, r, gt)
 	RunControl(r, "reusekey", "ctlContext).reuse", RunReuseKey)
 	RunIterFresh(w, r, gt)
+	RunIterFreshControl(r)
 	r.Floor("iterfresh", 3)
 	RunControl(r, "memokey", "ctlContext).filter", RunMemoKey)
 	RunControl(r, "slicealias", "ctlSliceAlias", RunSliceAlias)
@@ -93,6 +94,7 @@ func propC07(w *World, r *Report) {
 	RunMemoKey(w, r, gt)
 	RunReuseKey(w, r, gt)
 	RunIterFresh(w, r, gt)
+	RunIterFreshControl(r)
 	r.Floor("iterfresh", 3)
 	RunControl(r, "reusekey", "ctlContext).reuse", RunReuseKey)
 	RunControl(r, "memokey", "ctlContext).filter", RunMemoKey)
